@@ -34,7 +34,7 @@ PROPS = {
             dict(tla="Grogu_MC.tla", cfg="Grogu_MC_real.cfg", tier="thorough", timeout=1500),
             dict(tla="Grogu_MC.tla", cfg="Grogu_MC_faults2.cfg", tier="thorough", timeout=1500)],
         gen=dict(tla="Grogu_Gen.tla", cfg="Grogu_Gen.cfg", depth=800, num=dict(quick=40, thorough=600), timeout=900),
-        drive=dict(family="grogu", nrand=dict(quick=120, thorough=3000)),
+        drive=dict(family="grogu", nrand=dict(quick=120, thorough=2500)),
         trace=dict(tla="Grogu_Trace.tla", cfg="Grogu_Trace_C20.cfg"),
         rule="closed-loop runs under virtual time: TLC -simulate walks of Grogu.tla (live and fault behaviours) + seeded "
              "random scripts, alternately `live` (within the timing assumptions: polling period 1-4 s, latency <= L, "
